@@ -11,11 +11,15 @@
 (* An encoding is [version, word (4 | 8 = DWARF32 | DWARF64), asz].           *)
 (* Entries of a unit are numbered 1.. in id order (1 = root = UnitEntryId 0). *)
 EXTENDS Leb, FiniteSets
+(* range / location lists: emission rules and meaning are those of C16's model *)
+LW == INSTANCE ListWriter
 
 -----------------------------------------------------------------------------
 (* Part 1: the builder.                                                      *)
 Placeholder == [tag |-> "", parent |-> 0, sibling |-> FALSE, attrs |-> <<>>, children |-> <<>>]
-NewUnit(enc) == [enc |-> enc, reserved |-> 1,
+(* rt / lt: the unit's RangeListTable / LocationListTable - the distinct lists *)
+(* in insertion order (entries never leave a table)                            *)
+NewUnit(enc) == [enc |-> enc, reserved |-> 1, rt |-> <<>>, lt |-> <<>>,
                  ents |-> <<[Placeholder EXCEPT !.tag = "DW_TAG_compile_unit"]>>]
 
 (* Unit::reserve: the new id is U.reserved + 1 (1-based)                     *)
@@ -150,6 +154,24 @@ OpsEmit(os, enc, cx) ==
          ELSE LET t == OpsEmit(Tail(os), enc, cx) IN IF t.err # "" THEN t ELSE OkF(h.fs \o t.fs)
 HasOps(val) == val.k = "Exprloc" /\ "ops" \in DOMAIN val
 
+(* A RangeListRef / LocationListRef value names its list: either [list] (a      *)
+(* sequence of LW!Ent entries) or the short form [v] = one start/end entry.     *)
+IsListRef(val) == val.k \in {"RangeListRef", "LocationListRef"}
+ListOf(val) == IF "list" \in DOMAIN val THEN val.list
+               ELSE IF val.k = "RangeListRef" THEN <<LW!Ent("se", Nat8(16), Nat8(32 + ToNat(val.v)), <<>>)>>
+               ELSE <<LW!Ent("se", Nat8(16), Nat8(32 + ToNat(val.v)), <<80 + ToNat(val.v)>>)>>
+TabAddList(tab, L) == IF \E i \in DOMAIN tab : tab[i] = L THEN tab ELSE Append(tab, L)
+LEnc(enc, be) == [ver |-> enc.version, asz |-> enc.asz, fmt |-> IF enc.word = 8 THEN 64 ELSE 32, le |-> ~be]
+(* the root's DW_AT_low_pc as the list writer / reader see it *)
+RECURSIVE LowPcOf(_)
+LowPcOf(attrs) == IF attrs = <<>> THEN [some |-> FALSE, v |-> Zero(8)]
+                  ELSE IF Head(attrs).name = "DW_AT_low_pc" /\ Head(attrs).val.k = "Address"
+                       THEN [some |-> TRUE, v |-> Head(attrs).val.v] ELSE LowPcOf(Tail(attrs))
+Lp(U) == LowPcOf(U.ents[1].attrs)
+(* RangeListTable::write + LocationListTable::write of a unit (Unit::write calls *)
+(* them between the layout and the write pass)                                  *)
+ListsResult(U, be) == LW!WriteUnit(U.rt, U.lt, LEnc(U.enc, be), Lp(U))
+
 (* AttributeValue::form *)
 Form(val, enc) ==
     LET k == val.k IN
@@ -258,8 +280,10 @@ Meaning(val, enc, pos, u, cx, be) ==
       [] k = "DebugMacinfoRef" -> [macinfo |-> val.v]
       [] k = "DebugMacroRef" -> [macro |-> val.v]
       [] k = "LineProgramRef" -> [line |-> "own"]
-      [] k = "LocationListRef" -> [loclist |-> <<[b |-> Nat8(16), e |-> Nat8(32 + ToNat(val.v)), expr |-> <<80 + ToNat(val.v)>>]>>]
-      [] k = "RangeListRef" -> [ranges |-> <<[b |-> Nat8(16), e |-> Nat8(32 + ToNat(val.v))]>>]
+      [] k = "LocationListRef" -> LET m == LW!Meaning(ListOf(val), cx.lenc, cx.lp, "loc") IN
+                                  [loclist |-> [i \in DOMAIN m |-> [b |-> m[i].begin, e |-> m[i].end, expr |-> m[i].d]]]
+      [] k = "RangeListRef" -> LET m == LW!Meaning(ListOf(val), cx.lenc, cx.lp, "rng") IN
+                               [ranges |-> [i \in DOMAIN m |-> [b |-> m[i].begin, e |-> m[i].end]]]
       [] k = "DebugTypesRef" -> [sig8 |-> val.v]
       [] k = "StringRef" -> [strp |-> val.s]
       [] k = "LineStringRef" -> [line_strp |-> val.s]
@@ -413,15 +437,17 @@ WriteResultX(D, be, bytes) ==
                                    IF e <= Len(D.units[v].ents) /\ Ls[v].offs[e] # 0 THEN Nat8(starts[v] + Ls[v].offs[e]) ELSE <<>>]],
                     stroff |-> [s \in Range(strtab) |-> StrOffset(strtab, s, 1)],
                     lstroff |-> [s \in Range(lstrtab) |-> StrOffset(lstrtab, s, 1)],
-                    lineprog |-> FALSE]
+                    lineprog |-> FALSE, lenc |-> LEnc(D.units[u].enc, be), lp |-> Lp(D.units[u])]
         body == [u \in 1..nu |->
                    IF ~VersionOk(D.units[u].enc) THEN ErrF("UnsupportedVersion")
                    ELSE IF Ls[u].err # "" THEN ErrF(Ls[u].err)
+                   ELSE IF ~ListsResult(D.units[u], be).ok THEN ErrF(ListsResult(D.units[u], be).err)
                    ELSE EmitEntry(Reordered(D.units[u]), 1, Ls[u], cxOf(u, FALSE))]
         (* errors raised while the units are written, before the cross-unit fix-ups *)
         early == [u \in 1..nu |->
                    IF ~VersionOk(D.units[u].enc) THEN ErrF("UnsupportedVersion")
                    ELSE IF Ls[u].err # "" THEN ErrF(Ls[u].err)
+                   ELSE IF ~ListsResult(D.units[u], be).ok THEN ErrF(ListsResult(D.units[u], be).err)
                    ELSE EmitEntry(Reordered(D.units[u]), 1, Ls[u], cxOf(u, TRUE))]
         firstErr == IF \E u \in 1..nu : early[u].err # ""
                     THEN early[CHOOSE u \in 1..nu : early[u].err # "" /\ \A v \in 1..(u - 1) : early[v].err = ""].err
@@ -445,7 +471,11 @@ ApplyCall(D, k) ==
     CASE k.op = "add" -> [D EXCEPT !.units[k.u] = AddNew(U, k.p, k.tag)]
       [] k.op = "reserve" -> [D EXCEPT !.units[k.u] = Reserve(U)]
       [] k.op = "add_reserved" -> [D EXCEPT !.units[k.u] = AddReserved(U, k.e, k.p, k.tag)]
-      [] k.op = "set" -> [D EXCEPT !.units[k.u] = SetAttr(U, k.e, k.name, k.val),
+      [] k.op = "set" -> [D EXCEPT !.units[k.u] =
+                               LET V == SetAttr(U, k.e, k.name, k.val) IN
+                               IF k.val.k = "RangeListRef" THEN [V EXCEPT !.rt = TabAddList(@, ListOf(k.val))]
+                               ELSE IF k.val.k = "LocationListRef" THEN [V EXCEPT !.lt = TabAddList(@, ListOf(k.val))]
+                               ELSE V,
                                    !.strs = @ \o StrOf(k.val), !.lstrs = @ \o LStrOf(k.val)]
       [] k.op = "delete" -> [D EXCEPT !.units[k.u] = DeleteAttr(U, k.e, k.name)]
       [] k.op = "sibling" -> [D EXCEPT !.units[k.u] = SetSibling(U, k.e, k.v)]
